@@ -157,6 +157,7 @@ func init() {
 		},
 		"vWindow": func(fr *frame, args []Value) Value { return nil },
 		"vJitter": func(fr *frame, args []Value) Value { return nil },
+		"vNative": func(fr *frame, args []Value) Value { return fr.ex.ctx.False },
 		"vQuiesce": func(fr *frame, args []Value) Value {
 			g := fr.gor()
 			if g.id != 0 {
